@@ -754,6 +754,7 @@ def check_C03(tier, seed):
     import l1
     v = Verdict("C03", out_of_scope=lambda sig: not c03_scope(sig))
     mc = mc_page(tier, parts=("readers",))
+    mc["deductive"] = tlaps_proofs("PageRules_Proofs")
     stats = {}
     presz = ["--num-pages", "8192"]   # single thread: the file must not grow while a reader is open
     if tier == "quick":
@@ -791,7 +792,9 @@ def check_C03(tier, seed):
                transitions=mc["transitions"] + gs["transitions"] + stats.get("events", 0),
                traces_validated_against_impl=gs["replays"] + stats.get("replays", 0) + stats.get("traces", 0),
                evaluations=gs["steps"] + stats.get("events", 0), distinct_nontrivial=gs["behaviours"],
-               rule="MC: PageStore readers configuration (ReaderPinned, ReaderIntact over all interleavings of BeginR/EndR with "
+               rule="TLAPS: what ReleaseBoundOK allows to be released is needed by no reader and not by the writer, and the bound "
+                    "the code computes is allowed (PageRules_Proofs.tla, unbounded). "
+                    "MC: PageStore readers configuration (ReaderPinned, ReaderIntact over all interleavings of BeginR/EndR with "
                     "writer steps, release bound chosen anywhere in the allowed interval). spec->impl: Gen_Readers enumerates every "
                     "interleaving (distinct_nontrivial) of opening/closing up to k readers with committing / rolling-back writers "
                     "running update+delete chunks; each is replayed single-threaded on a pre-sized file and EVERY open reader is "
@@ -1297,6 +1300,25 @@ def check_C15(tier, seed):
     return v.finish(tier, seed, "translation_validation", cov, L1_ASSUME + [
         "golden files were generated once from commit f5c2214 (see golden/README.md); parse.rs encodes the pinned layout incl. "
         "the legacy (SHA3-256) header"])
+
+
+def tlaps_proofs(module):
+    """the theorems of spec/<module>.tla checked by the TLA+ proof system (no bounds)"""
+    d = os.path.join(scratch(), "tlaps")
+    os.makedirs(d, exist_ok=True)
+    shutil.copy(os.path.join(SPEC, module + ".tla"), d)
+    t0 = time.time()
+    try:
+        p = subprocess.run(["tlapm", "--threads", "4", module + ".tla"], cwd=d, stdout=subprocess.PIPE, stderr=subprocess.STDOUT,
+                           text=True, timeout=1800)
+    except subprocess.TimeoutExpired:
+        raise ToolError("tlapm timeout on %s" % module)
+    m = re.search(r"All (\d+) obligations? proved", p.stdout)
+    if not m:
+        log(p.stdout[-3000:])
+        raise ToolError("tlapm: %s has unproved obligations" % module)
+    shutil.rmtree(d, ignore_errors=True)
+    return dict(tool="tlapm 1.6", module=module, obligations_proved=int(m.group(1)), seconds=round(time.time() - t0, 1))
 
 
 def apalache_inductive(module, indinv, goal):
